@@ -2,7 +2,7 @@
    Statements only; every proof is `exact <lemma>`.  The statements are about every schedule
    (label list) of the supervisor model, any number and mix of runnables. *)
 From Coq Require Import List Bool Arith.
-From GS Require Import LTS Supervisor SupAccept SupProps SupInv SupGate SupResult SupPending.
+From GS Require Import LTS Supervisor SupAccept SupProps SupInv SupTrig SupGate SupResult SupPending.
 Import ListNotations.
 
 (* No later runnable's Run is invoked until every Stateable runnable registered before it has
@@ -76,9 +76,38 @@ Theorem C03_pending_quiescent : forall c s,
   (forall i, ~ waiting (rn_at s i)) /\ (decided s \/ (errq s <> [] /\ at_gate s)).
 Proof. exact sup_c03_pending_quiescent. Qed.
 
+(* The start-up timeout: one timer per readiness wait (armed when the wait begins; the model is untimed: the step
+   LGateTimeout j is enabled from then on whenever Run() is not inside a slow IsRunning() call - the real-time side,
+   that the deadline is NOT re-armed by every poll, is checked by the timed harness family gatetimed).  Once it has
+   fired at gate j, no further runnable is started on any continuation and Run() returns the start-up timeout error. *)
+Theorem C03_startup_timeout_aborts : forall c s j s1 ls s2,
+  step c s (LGateTimeout j) = Some s1 -> run (step c) s1 ls = Some s2 ->
+  main s = MGate j /\ startup_may_fire c = true /\ su_fired (aux s1) = true /\
+  launched s2 = launched s /\ main_res (main s2) = Some ResTimeout /\
+  (forall r, main s2 = MReturned r -> r = ResTimeout).
+Proof. exact sup_c03_startup_timeout_aborts. Qed.
+
 Print Assumptions C03_pending.
 Print Assumptions C03_pending_gate.
 Print Assumptions C03_pending_quiescent.
+Print Assumptions C03_startup_timeout_aborts.
+
+(* non-vacuity: the deadline fires while runnable 0 is not ready; runnable 1 is never started; Run() returns the
+   start-up timeout error after stopping runnable 0 *)
+Definition c03_to_cfg : config :=
+  {| specs := specs c03_cfg; startup_may_fire := true; shutdown_may_fire := false |}.
+Definition c03_to_pre : list label := [LRunEnter; LRunEntered; LLaunch 0; LRunStore 0; LRunCall 0; LPoll 0 false].
+Definition c03_to_post : list label :=
+  [LMainShutdown; LStopCall 0; LRunRet 0 None; LStopRet 0; LSdCancel; LStmExit; LSdWgDone; LMainReturn ResTimeout].
+Example C03_ex_startup_timeout :
+  exists s s1 s2, run (step c03_to_cfg) (init c03_to_cfg) c03_to_pre = Some s /\
+                  step c03_to_cfg s (LGateTimeout 0) = Some s1 /\
+                  run (step c03_to_cfg) s1 c03_to_post = Some s2 /\
+                  main s2 = MReturned ResTimeout /\ launched s2 = 1 /\ rn_at s2 1 = RnNot.
+Proof.
+  eexists. eexists. eexists. split; [vm_compute; reflexivity|]. split; [vm_compute; reflexivity|].
+  split; [vm_compute; reflexivity|]. repeat split; vm_compute; reflexivity.
+Qed.
 
 (* non-vacuity: runnable 0 became ready but failed before the gate looked: the gate does not open *)
 Definition c03_pend_sched : list label :=
